@@ -58,7 +58,7 @@ func (x *gen) symbol(nt int) *Expr {
 
 func (x *gen) group(nt, depth, nalt int) *Expr {
 	gr := &Expr{Kind: KGroup}
-	single := x.r.Intn(3) == 0 // alternatives of exactly one symbol: the alias has a value
+	single := x.r.Intn(2) == 0 // alternatives of exactly one symbol: the alias has a value
 	used := map[int]bool{}
 	for i := 0; i < nalt; i++ {
 		var a *Expr
@@ -86,7 +86,7 @@ func (x *gen) element(nt, depth int) *Expr {
 	case k < 9:
 		return x.maybeAlias(x.symbol(nt), 45)
 
-	case k == 9 && depth < 2: // optional list, mostly without alias: a position that only $N can name
+	case (k == 9 || k == 10) && depth < 2: // optional list, mostly without alias: a position that only $N can name
 		l := &Expr{Kind: KList, Sep: -1, Plus: true}
 		if x.r.Intn(2) == 0 {
 			l.Sub = []*Expr{{Kind: KSeq, Sub: []*Expr{x.term()}}}
@@ -233,6 +233,10 @@ func Rand(r *rand.Rand, opt Options) *Grammar {
 			ru.Scope = &Scope{Root: ru.Body, NT: i, Rule: ri}
 		}
 	}
+	var twins []*Cmd
+	if r.Intn(100) < 60 {
+		twins = x.twinRules()
+	}
 	g.Inputs = []int{0}
 	for {
 		reach := g.reachable()
@@ -264,6 +268,9 @@ func Rand(r *rand.Rand, opt Options) *Grammar {
 		for _, ru := range n.Rules {
 			x.finishScope(ru.Scope)
 		}
+	}
+	for _, c := range twins {
+		c.ID = c.Twin.ID
 	}
 	return g
 }
@@ -444,6 +451,12 @@ func singleValued(e *Expr) bool {
 
 func (x *gen) fillCmd(sc *Scope, c *Cmd, afterEarly bool) {
 	r := x.r
+	if c.Fixed {
+		for _, it := range c.Items {
+			x.g.Forms[it.Form]++
+		}
+		return
+	}
 	type cand struct {
 		it Item
 		w  int
@@ -508,7 +521,11 @@ func (x *gen) fillCmd(sc *Scope, c *Cmd, afterEarly bool) {
 			if form == "sym#N" || r.Intn(4) == 0 {
 				txt = "${" + ref + "}"
 			}
-			add(Item{Kind: IValue, Text: txt, Form: "$" + form, Pos: o.pos}, 3)
+			vw := 3
+			if len(o.pos) > 1 {
+				vw = 10 // alias over alternatives of possibly different types
+			}
+			add(Item{Kind: IValue, Text: txt, Form: "$" + form, Pos: o.pos}, vw)
 		}
 		w := 2
 		if len(o.pos) > 1 {
@@ -780,4 +797,93 @@ func (x *gen) addMarkers(body *Expr) {
 		}
 	}
 	mark(body)
+}
+
+// twinRules adds two rules (to two nonterminals) whose mid-rule actions have
+// byte-identical text, the same stack layout and the same types per position,
+// while the aliases used by the action are attached to swapped positions:
+//
+//	A: g u[p] v[q] { vlog("cK|..", $p, ${q.offset}, ..) } w ...
+//	B: g v[q] u[p] { vlog("cK|..", $p, ${q.offset}, ..) } w ...
+//
+// Returns the actions of the second rules (they take over the label of the first).
+func (x *gen) twinRules() []*Cmd {
+	g, r := x.g, x.r
+	if len(g.Nonterms) < 2 {
+		return nil
+	}
+	a := r.Intn(len(g.Nonterms))
+	b := r.Intn(len(g.Nonterms) - 1)
+	if b >= a {
+		b++
+	}
+	guardUsed := func(nt, t int) bool {
+		for _, ru := range g.Nonterms[nt].Rules {
+			for _, e := range ru.Body.Sub {
+				if e.Kind == KCmd || e.Kind == KMarker {
+					continue
+				}
+				if e.Kind == KTerm && e.Sym == t || e.Kind != KTerm {
+					return true // unguarded rules count as using everything
+				}
+				break
+			}
+		}
+		return false
+	}
+	gd := -1
+	for _, t := range r.Perm(len(g.Terms)) {
+		if !guardUsed(a, t) && !guardUsed(b, t) {
+			gd = t
+			break
+		}
+	}
+	if gd < 0 {
+		return nil
+	}
+	// two symbols of one value type (possibly the same terminal)
+	u := r.Intn(len(g.Terms))
+	v := u
+	for _, t := range r.Perm(len(g.Terms)) {
+		if t != u && g.Terms[t].StrVal == g.Terms[u].StrVal {
+			v = t
+			break
+		}
+	}
+	tail := r.Intn(len(g.Terms))
+	p, q := x.alias(), x.alias()
+	var first *Cmd
+	var out []*Cmd
+	for k, nt := range []int{a, b} {
+		s1 := &Expr{Kind: KTerm, Sym: u, Alias: p}
+		s2 := &Expr{Kind: KTerm, Sym: v, Alias: q}
+		pp, qp := 2, 3
+		if k == 1 {
+			s1, s2 = &Expr{Kind: KTerm, Sym: v, Alias: q}, &Expr{Kind: KTerm, Sym: u, Alias: p}
+			pp, qp = 3, 2
+		}
+		c := &Cmd{Fixed: true, Items: []Item{
+			{Kind: IValue, Text: "$" + p, Form: "$alias", Pos: []int{pp}},
+			{Kind: IOffset, Text: "${" + q + ".offset}", Form: "${alias.offset}", Pos: []int{qp}},
+			{Kind: IValue, Text: "$" + q, Form: "$alias", Pos: []int{qp}},
+			{Kind: IEndoffset, Text: "${" + p + ".endoffset}", Form: "${alias.endoffset}", Pos: []int{pp}},
+		}}
+		if k == 0 {
+			first = c
+		} else {
+			c.Twin = first
+			first.Twin = c
+			out = append(out, c)
+		}
+		n := g.Nonterms[nt]
+		x.tags++
+		body := &Expr{Kind: KSeq, Sub: []*Expr{
+			{Kind: KTerm, Sym: gd}, s1, s2, {Kind: KCmd, Cmd: c}, {Kind: KTerm, Sym: tail},
+			{Kind: KCmd, Cmd: &Cmd{End: true, Tag: x.tags, StrVal: n.StrVal}},
+		}}
+		ru := &Rule{Body: body}
+		ru.Scope = &Scope{Root: body, NT: nt, Rule: len(n.Rules)}
+		n.Rules = append(n.Rules, ru)
+	}
+	return out
 }
